@@ -251,12 +251,21 @@ fn attr_strs(attrs: &[syn::Attribute]) -> Vec<String> {
     attrs.iter().map(|a| toks(&a.meta)).collect()
 }
 
+/// A load-time constructor slot: a static placed in a linker section (`#[link_section = ..]`) and/or kept with `#[used]`
+/// whose type is a function pointer.  Identified by role, not by the name the macro happens to give it.
+fn is_constructor_static(i: &syn::ItemStatic) -> bool {
+    let attrs = attr_strs(&i.attrs);
+    let placed = attrs.iter().any(|a| a.starts_with("link_section") || a == "used" || a.contains("link_section"));
+    placed && matches!(&*i.ty, syn::Type::BareFn(_))
+}
+
 impl<'ast> Visit<'ast> for Inner {
     fn visit_item_static(&mut self, i: &'ast syn::ItemStatic) {
         let name = i.ident.to_string();
-        if name == "PUSH" {
+        if is_constructor_static(i) {
             self.push_statics.push(format!(
-                "{{\"attrs\":{},\"ty\":{},\"init\":{}}}",
+                "{{\"name\":{},\"attrs\":{},\"ty\":{},\"init\":{}}}",
+                js(&name),
                 jstrs(&attr_strs(&i.attrs)),
                 js(&toks(&i.ty)),
                 js(&toks(&i.expr))
@@ -274,7 +283,8 @@ impl<'ast> Visit<'ast> for Inner {
         visit::visit_item_const(self, i);
     }
     fn visit_item_fn(&mut self, i: &'ast syn::ItemFn) {
-        if i.sig.ident == "push" {
+        // every function nested in the registration is summarised; the rule picks the one the constructor slot names
+        {
             let mut node_statics = Vec::new();
             let mut calls = Vec::new();
             let mut other = 0usize;
@@ -295,7 +305,8 @@ impl<'ast> Visit<'ast> for Inner {
                 }
             }
             self.push_fns.push(format!(
-                "{{\"abi\":{},\"node_statics\":{},\"calls\":{},\"other_stmts\":{}}}",
+                "{{\"name\":{},\"abi\":{},\"node_statics\":{},\"calls\":{},\"other_stmts\":{}}}",
+                js(&i.sig.ident.to_string()),
                 js(&i.sig.abi.as_ref().map(|a| toks(a)).unwrap_or_default()),
                 jlist(&node_statics),
                 jlist(&calls),
@@ -361,14 +372,14 @@ impl<'ast> Visit<'ast> for Regs {
     fn visit_item_static(&mut self, i: &'ast syn::ItemStatic) {
         let t = toks(&i.ty);
         let is_entry = t.ends_with("__private::BenchEntry") || t.ends_with("__private::GroupEntry") || t.contains("__private::EntryList<");
-        if is_entry && i.ident.to_string().starts_with("__DIVAN_") {
+        if is_entry {
             self.registration(i);
             return; // do not descend: nested statics belong to this registration
         }
-        if i.ident == "PUSH" {
+        if is_constructor_static(i) {
             // a constructor outside any recognised registration
             self.push_statics_total += 1;
-            self.out.push(format!("{{\"static\":\"PUSH\",\"orphan\":true,\"mods\":{},\"fns\":{},\"line\":{}}}", jstrs(&self.mods), jstrs(&self.fns), i.ident.span().start().line));
+            self.out.push(format!("{{\"static\":\"<constructor>\",\"orphan\":true,\"mods\":{},\"fns\":{},\"line\":{}}}", jstrs(&self.mods), jstrs(&self.fns), i.ident.span().start().line));
         }
         visit::visit_item_static(self, i);
     }
